@@ -539,6 +539,20 @@ def emul_effect(progs):
                 continue
             want = EMUL_EFFECT[sn]
             have = _effects_of(prog, f, 0, set())
+            if sn.startswith('uninitialized_value_construct'):
+                # value-initialisation, not default-initialisation: no `new T` without initialiser, no delegation to the default-construct
+                # sibling (a type whose default constructor is not user-provided would keep indeterminate members)
+                bad = None
+                for n in walk(f['body']):
+                    if n.get('k') == 'new' and n.get('reserved_placement') and n.get('style') == 'none':
+                        bad = (n, '`new T` without initialiser default-initialises')
+                    if n.get('k') == 'call' and short(n.get('name', '')) in ('uninitialized_default_construct', 'uninitialized_default_construct_n'):
+                        bad = (n, 'delegates to %s' % short(n['name']))
+                rr.instance('%s|%s|valueinit' % (f['key'], f['pname'][:120]), {'function': f['pname'][:150], 'value_initialises': bad is None})
+                if bad:
+                    rr.add(Finding('EMUL-EFFECT', '%s|valueinit' % f['key'], prog.site(f, bad[0]),
+                                   '%s %s: the standard algorithm value-initialises (`::new (p) T()`), so members of a type without a user-provided default '
+                                   'constructor would be zero' % (sn, bad[1]), where=f['pname'], unit=prog.uname))
             # a destroy of a trivially destructible type legitimately does nothing
             trivial_ok = sn.startswith('destroy')
             ok = bool(have & set(want)) or trivial_ok
